@@ -130,6 +130,15 @@ func TestC02(t *testing.T) {
 		}
 		synctest.Test(t, func(t *testing.T) { c02Run(t, run, sc) })
 	}
+	// redeploys that overlap (the later-issued one completes first): the replaced targets are taken
+	// away the moment each deploy returns, and still no client sees an error
+	for k := 0; k < run.N(8, 200); k++ {
+		desc := map[string]any{"idx": k, "kind": "overlapping-deploys"}
+		if !run.Mine(n+k, desc) {
+			continue
+		}
+		synctest.Test(t, func(t *testing.T) { overlapDeploys(t, run, k, run.Rand(n+k)) })
+	}
 }
 
 func c02Run(t *testing.T, run *Run, sc c02Scenario) {
